@@ -68,6 +68,15 @@ let handle cmd args : string option =
       match o with
       | Some l -> String.concat "," (List.map hex_of_str l)
       | None -> String.concat "," (List.map (fun _ -> "-") types)) cs out))
+  | "ccd", names ->
+    (* residue names (hex) of one chain: the alias table, the names after shorten_ccd_codes, after restore_full_ccd_codes *)
+    let ns = List.map (fun h -> if h = "-" then [] else str_of_hex h) names in
+    let t = shorten_table ns in
+    let hx l = if l = [] then "-" else hex_of_str l in
+    let short = apply_shorten t ns in
+    Some (String.concat " " (List.map (fun (o, a) -> hx o ^ ">" ^ hx a) t) ^ " | " ^
+          String.concat " " (List.map hx short) ^ " | " ^
+          String.concat " " (List.map hx (apply_restore t short)))
   | "rows", _ ->
     (* handled in handle_full: the expected value depends on the first half of the implementation's answer *)
     None
